@@ -264,13 +264,125 @@ def dataclass_case(rng, res, label):
                                 {"x": repr(x), "built": repr(built)}))
 
 
+KNOWN_TRIM_MUTABLE_DEFAULT = "C20/trim-replaces-value-by-shared-mutable-default"
+
+
+def alias_pairs(t):
+  """Pairs of positions of a build_canon tree that hold the same object."""
+  by_label = {}
+  def go(u, path):
+    if isinstance(u, tuple):
+      if len(u) == 2 and u[0] == "ref":
+        by_label.setdefault(u[1], []).append(path)
+        return
+      if u and u[0] in ("obj", "dict", "list", "tuple", "nt", "dc", "opaque") and len(u) >= 2 \
+          and isinstance(u[1], int) and not isinstance(u[1], bool):
+        by_label.setdefault(u[1], []).append(path)
+      for i, w in enumerate(u):
+        go(w, path + (i,))
+  go(t, ())
+  # positions are compared through the label-free tree: use the path of indices, which is stable when
+  # values are equal
+  return {(a, b) for ps in by_label.values() for a in ps for b in ps if a < b}
+
+
+def strip_built_sharing(t):
+  """build_canon without identities: references expanded, labels dropped."""
+  table = {}
+  def collect(u):
+    if isinstance(u, tuple):
+      if u and u[0] in ("obj", "dict", "list", "tuple", "nt", "dc", "opaque") and len(u) >= 2 \
+          and isinstance(u[1], int) and not isinstance(u[1], bool):
+        table[u[1]] = u
+      for w in u:
+        collect(w)
+  collect(t)
+  def go(u, depth=0):
+    if isinstance(u, tuple):
+      if len(u) == 2 and u[0] == "ref" and u[1] in table and depth < 60:
+        return go(table[u[1]], depth + 1)
+      if u and u[0] in ("obj", "dict", "list", "tuple", "nt", "dc", "opaque") and len(u) >= 2 \
+          and isinstance(u[1], int) and not isinstance(u[1], bool):
+        return (u[0],) + tuple(go(w, depth + 1) for w in u[2:])
+      return tuple(go(w, depth + 1) for w in u)
+    return u
+  return go(t)
+
+
+# ---- defaults that are themselves mutable or shared (oracle only) ---------------------------------
+_SHARED_DEFAULT = [0]
+
+
+def fm(sizes=[], name="n", table={"k": 1}, shared=_SHARED_DEFAULT):   # pylint: disable=dangerous-default-value
+  return l2._rec("fm", locals())  # pylint: disable=protected-access
+
+
+def fm2(first=_SHARED_DEFAULT, second=_SHARED_DEFAULT):
+  return l2._rec("fm2", locals())  # pylint: disable=protected-access
+
+
+def mutable_default_case(rng, res, label):
+  """An argument explicitly set to a value EQUAL to a mutable default, where that value object is also
+  referenced elsewhere in the configuration (or not): trimming / materializing must keep the built
+  graphs structurally identical, sharing included, and the configurations ==."""
+  v_list, v_dict = [], {"k": 1}
+  layer = fdl.Config(fm)
+  if rng.random() < 0.7:
+    layer.sizes = v_list
+  if rng.random() < 0.5:
+    layer.table = v_dict
+  if rng.random() < 0.3:
+    layer.shared = [0]
+  holder_kwargs = {"layer": layer}
+  r = rng.random()
+  if r < 0.4:
+    holder_kwargs["registry"] = v_list            # the same list object, aliased
+  elif r < 0.6:
+    holder_kwargs["registry"] = [v_list, v_dict]
+  elif r < 0.75:
+    holder_kwargs["other"] = fdl.Config(fm, sizes=v_list, table=v_dict)
+  if rng.random() < 0.4:
+    holder_kwargs["two"] = fdl.Config(fm2) if rng.random() < 0.5 else fdl.Config(fm2, first=[0])
+  root = fdl.Config(l2.fd, **holder_kwargs)
+  for name in ("with_defaults_trimmed", "with_defaults_trimmed_deep", "materialize_defaults"):
+    res.evaluations += 1
+    res.count("mutable-default:" + name)
+    cfg = copy.deepcopy(root)
+    before = try_build(cfg)
+    try:
+      if name == "materialize_defaults":
+        out = copy.deepcopy(cfg)
+        materialize.materialize_defaults(out)
+      else:
+        out = visualize.with_defaults_trimmed(cfg, remove_deep_defaults=name.endswith("deep"))
+    except Exception as e:  # pylint: disable=broad-except
+      res.failures.append(Failure(None, f"C20 {label}: {name} raised {type(e).__name__}: {e}",
+                                  {"cfg": repr(root)[:800]}))
+      continue
+    after = try_build(out)
+    replay = {"label": label, "transformation": name, "cfg": repr(root)[:800], "out": repr(out)[:800],
+              "aliases": sorted(holder_kwargs)}
+    if after != before:
+      key = None
+      if name.startswith("with_defaults_trimmed") and before[0] == after[0] == "ok" \
+          and strip_built_sharing(before[1]) == strip_built_sharing(after[1]) \
+          and alias_pairs(before[1]) <= alias_pairs(after[1]):   # no alias of the original is lost
+        key = KNOWN_TRIM_MUTABLE_DEFAULT   # values equal, only the sharing with the callable's default object differs
+      res.failures.append(Failure(key, f"C20 {label}: {name} changed the built object graph (values or sharing) of a "
+                                  "configuration whose argument equals a mutable default", replay))
+    elif not (out == cfg):
+      res.failures.append(Failure(None, f"C20 {label}: {name} gave a configuration that is not == to the original",
+                                  replay))
+
+
 def run(tier: str, seed: int) -> Result:
   rng = random.Random(seed * 217645199 + 20)
   res = Result()
   res.rule = ("random configurations (positional-only defaults, dataclass default factories, Partials and "
               "TaggedValues in containers, shared nodes) x {materialize_defaults, with_defaults_trimmed, "
               "unintern_tuples_of_literals, replace_unconfigured_partials_with_callables, clear_argument_history, "
-              "materialize_tags}; builds compared before/after; plus auto_config.inline and "
+              "materialize_tags}; builds compared before/after; arguments equal to mutable / shared defaults with and "
+              "without aliases elsewhere; plus auto_config.inline and "
               "convert_dataclasses_to_configs; non-trivial = more than 2 reachable nodes")
   intern = common.Interner()
   stream = Stream("c20_transform",
@@ -295,6 +407,8 @@ def run(tier: str, seed: int) -> Result:
               and pname not in getattr(b.__fn_or_cls__, "_verif_factory_products", {}):
             setattr(b, pname, d)
     one_case(rng, res, intern, stream, root, name, f"cfg#{i}")
+  for i in range(40 if tier == "quick" else 1000):
+    mutable_default_case(rng, res, f"mutdef#{i}")
   for i in range(20 if tier == "quick" else 300):
     inline_case(rng, res, f"inline#{i}")
     dataclass_case(rng, res, f"dc#{i}")
